@@ -1,5 +1,6 @@
 """Helpers shared by the rule modules."""
 from fractions import Fraction
+from sa import guards as G
 from sa.sym import SELF, is_const, pretty, walk, root_field, is_heap_path, mk_cmp, mk_not, mk_bool
 from sa.model import AnalysisError, EnumVal
 from sa.paths import runs_of
@@ -171,10 +172,18 @@ def contradictory(run):
     for a, p in lits(run.guards()):
         if seen.setdefault(a, p) != p:
             return True
+    # a compound condition whose value is already decided by the literals of the path (e.g. `a or b` taken true after both
+    # `a` and `b` were taken false - typical for a flag that was replaced by re-testing the conditions)
+    for g, p in run.guards():
+        if g[0] in ("bool", "not"):
+            v = _eval3(g, seen)
+            if v is not None and v != p:
+                return True
     # the same condition evaluated twice with different outcomes: infeasible when nothing that can change its operands
     # happened in between (any store / delete / call of one of the object's own methods starts a new epoch)
     whole = {}
     epoch = 0
+    cur = {}      # literals established since the last effect that could change their operands (plus stable ones)
     for rec in run.recs:
         if rec.cond is not None and rec.pol is not None:
             g, p = rec.cond, rec.pol
@@ -184,13 +193,45 @@ def contradictory(run):
             if prev is not None and prev[0] != p and (prev[1] == epoch or _stable_sym(g)):
                 return True
             whole[g] = (p, epoch)
+            # arithmetic consistency of the literals of one epoch: X == a and X == b, X == a and X < c, ...
+            new = lits([(rec.cond, rec.pol)])
+            if new:
+                for a, v in new:
+                    cur[a] = v
+                if not G.consistent(cur):
+                    return True
+        bump = False
         for e in rec.effects:
             if e.kind in ("store", "aug", "del"):
                 epoch += 1
+                bump = True
             elif e.kind == "call" and e.value[1][0] == "attr" and e.value[1][1] == SELF and run.evalr.cls is not None \
                     and run.evalr.prog.find_method(run.evalr.cls, e.value[1][2]) is not None:
                 epoch += 1
+                bump = True
+        if bump:
+            cur = {a: v for a, v in cur.items() if _stable_sym(a)}
     return False
+
+
+def _eval3(f, asg):
+    """three-valued evaluation of a guard formula under a partial assignment of its atoms"""
+    k = f[0]
+    if k == "not":
+        v = _eval3(f[1], asg)
+        return None if v is None else (not v)
+    if k == "bool":
+        vals = [_eval3(x, asg) for x in f[2]]
+        if f[1] == "and":
+            if any(v is False for v in vals):
+                return False
+            return True if all(v is True for v in vals) else None
+        if any(v is True for v in vals):
+            return True
+        return False if all(v is False for v in vals) else None
+    if k == "c" and isinstance(f[1], (bool, int)) and not isinstance(f[1], str):
+        return bool(f[1])
+    return asg.get(f)
 
 
 def _stable_sym(s):
@@ -275,4 +316,81 @@ def owners(ctx, fn, _seen=None):
     out = set()
     for s in ctx.cg.callers_of(fn.qual):
         out |= owners(ctx, s.caller, seen)
+    # calls that the path enumerator inlined do not show up as call sites: find them syntactically (self.<name>(...) or a bound
+    # method value self.<name> stored in a dispatch table) in the methods of the same class
+    import ast as _ast
+    cmap = ctx.__dict__.setdefault("_ast_callers", {})
+    if not cmap:
+        for g in ctx.prog.all_funcs():
+            if g.cls is None:
+                continue
+            for n in _ast.walk(g.node):
+                if isinstance(n, _ast.Attribute) and isinstance(n.value, _ast.Name) and n.value.id == "self" and isinstance(n.ctx, _ast.Load):
+                    cmap.setdefault((g.cls.name, n.attr), set()).add(g.qual)
+    for q in cmap.get((fn.cls.name, fn.name), ()):
+        if q != fn.qual:
+            out |= owners(ctx, ctx.prog.funcs[q], seen)
     return out
+
+
+def ret_is_none(run, value):
+    """the returned value is None on this path: the constant, or a value the path condition says equals None"""
+    if value == ("c", None):
+        return True
+    return any(p and g == mk_cmp("==", value, ("c", None)) for g, p in lits(run.guards()))
+
+
+def expand_forwarders(ctx, func, s, depth=0):
+    """replace calls of one-line pure forwarding methods (`def m(self, x): return <expr>`) of typed receivers by their bodies,
+    with the parameters bound and `self` replaced by the receiver"""
+    import ast as _ast
+    from sa.sym import SymEval
+    from sa.objeval import bind
+    P, cg = ctx.prog, ctx.cg
+
+    def fn(x):
+        if x[0] == "call" and x[1][0] == "attr" and depth < 3:
+            base, m = x[1][1], x[1][2]
+            try:
+                ts = cg.types_of(base, func)
+            except Exception:
+                return None
+            if len(ts) != 1:
+                return None
+            c = P.top_classes.get(list(ts)[0])
+            g = P.find_method(c, m) if c is not None else None
+            if g is None or g.kind != "method":
+                return None
+            body = [st for st in g.node.body if not (isinstance(st, _ast.Expr) and isinstance(st.value, _ast.Constant))]
+            if len(body) != 1 or not isinstance(body[0], _ast.Return) or body[0].value is None:
+                return None
+            if any(isinstance(n, (_ast.Yield, _ast.Await, _ast.Lambda, _ast.NamedExpr)) for n in _ast.walk(body[0])):
+                return None
+            try:
+                env = bind(P, g, list(x[2]), x[3])
+                actual = {("fwdarg", k): v for k, v in env.items()}
+                ev = SymEval(P, g, {k: ("fwdarg", k) for k in env})
+                v = ev.expr(body[0].value)
+            except AnalysisError:
+                return None
+            if ev.effects and any(e.kind != "call" for e in ev.effects):
+                return None
+            # the callee's own `self` is the receiver here; then the actual arguments (which are in the caller's terms) go in
+            v = G.subst(v, lambda y: base if y == SELF else None)
+            return G.subst(v, lambda y: actual.get(y) if y[0] == "fwdarg" else None)
+        return None
+    return G.renorm(G.subst(s, fn))
+
+
+def canon_from_bytes(s):
+    """int.from_bytes(x, 'little', signed=False) in any argument spelling -> ("le_uint", x); other Syms unchanged"""
+    def fn(x):
+        if x[0] == "call" and x[1] == ("attr", ("glob", "int"), "from_bytes"):
+            kw = dict(x[3])
+            data = x[2][0] if x[2] else kw.get("bytes")
+            bo = x[2][1] if len(x[2]) > 1 else kw.get("byteorder")
+            sg = kw.get("signed", ("c", False))
+            if data is not None and bo == ("c", "little") and sg == ("c", False):
+                return ("le_uint", data)
+        return None
+    return G.subst(s, fn)
